@@ -13,10 +13,13 @@ def call_t3(ec, mp, dps, T, r, a, j, c):
 
 def g_t3(ctx, ec, mp, cfg):
     events = []
+    seen = []
     for st in S.stepped_vectors(ctx, "g_full", cfg):
         c = st["cmd"]
         r, a, j, acc_in, T = c["r"], c["a"], c["j"], c["c"], st["tick"]
         want = (st["pos"], st["acc"])
+        if len(seen) < 40000 and (T + r) % 2 == 0:
+            seen.append((T, r, a, j, acc_in, want, st["rate"]))
         dps = S.DPS_CHOICES[(r + a + j + T) % len(S.DPS_CHOICES)]
         case = {"mode": "G", "T": T, "rate": r, "accel": a, "jerk": j, "accum": acc_in, "dps": dps}
         got = call_t3(ec, mp, dps, T, r, a, j, acc_in)
@@ -38,6 +41,14 @@ def g_t3(ctx, ec, mp, cfg):
         if ctx.evaluations % 9973 == 1:
             ctx.sample({"mode": "G", "T": T, "rate": r, "accel": a, "jerk": j, "accum": "clear" if acc_in == S.CLEAR else acc_in,
                         "stepped": {"pos": want[0], "acc": want[1], "rate": st["rate"]}, "move_dist_t3": repr(got), "rate_t3": repr(gr)})
+    for (T, r, a, j, acc_in, want, wrate) in reversed(seen):       # opposite order: no answer may depend on earlier calls
+        got = call_t3(ec, mp, 15, T, r, a, j, acc_in)
+        gr = ec.rate_t3(T, r, a, j)
+        if got != want or gr != wrate:
+            ctx.violation("t3.stepped_state", {"mode": "G", "fn": "move_dist_t3", "T": T, "rate": r, "accel": a, "jerk": j, "accum": acc_in, "dps": 15,
+                                               "order": "second pass, reverse order"}, [list(want), wrate], repr((got, gr)))
+            if ctx.enough(30):
+                break
     vs = S.judge(ctx, "g_cross", events)
     off = [(e, v) for e, v in zip(events, vs) if v != "ok"]
     if off:
